@@ -59,7 +59,7 @@ ASSUMPTIONS = [
 
 # the model function that stands for Client.upload: 0 = the code as it is (finding F1),
 # 1 = the code after docs/fixes/C09-upload-destination.diff.  Switch to 1 when the fix is applied.
-UPLOAD_MODEL_FN = 0
+UPLOAD_MODEL_FN = int(os.environ.get("C09_UPLOAD_MODEL_FN", "0"))
 KNOWN_KEY = "c09-upload-dir-multi-component-destination"
 
 TMP_ROOT = core.VERIF / "build" / "tmp"
